@@ -5,6 +5,7 @@ Order-taint analysis of the loops that iterate an unordered overload set.
 import ast
 
 from sa import cfg as cfgmod
+from sa import effects
 from sa import model
 from sa.model import AnalysisError
 
@@ -570,6 +571,54 @@ def _len_one_guard(fi, node, name):
     return False
 
 
+def check_registration_commutes(repo, rep):
+    """R06f: what a layer remembers about its overloads is updated only by
+    commutative operations (set add / discard).  A subscript store whose
+    value is the registered definition (`table[name] = spec`) makes the
+    last registration win, and a deletion conditional on it makes the
+    outcome depend on the order in which overloads were registered."""
+    ctxm = repo.module('yaql.language.contexts')
+    n = 0
+    for ci in ctxm.classes.values():
+        for mname in ('register_function', 'delete_function'):
+            m = ci.methods.get(mname)
+            if m is None:
+                continue
+            spec = m.params()[1] if len(m.params()) > 1 else None
+            derived = {spec}
+            for st in model.walk_shallow(m.node):
+                if isinstance(st, ast.Assign) and isinstance(
+                        st.targets[0], ast.Name) and any(
+                        isinstance(x, ast.Name) and x.id in derived
+                        for x in ast.walk(st.value)):
+                    derived.add(st.targets[0].id)
+            for w in effects.writes_in(m.node):
+                if w.root != 'self' or w.kind not in (
+                        'subscript', 'aug-subscript'):
+                    continue
+                n += 1
+                v = w.value
+                dep = v is not None and any(
+                    isinstance(x, ast.Name) and x.id in derived
+                    for x in ast.walk(v)) and not (
+                    isinstance(v, ast.Call) and isinstance(
+                        v.func, ast.Attribute) and v.func.attr in (
+                        'union', 'copy'))
+                rep.ob('R06f', '%s/%s' % (m.key, model.norm(w.target)),
+                       not dep,
+                       '%s stores the registered definition under a key '
+                       '(`%s`): of two overloads registered under the same '
+                       'key the one registered last wins, so what the layer '
+                       'answers depends on registration order' % (
+                           m.qualname, model.norm(w.node).split('\n')[0]),
+                       loc=ctxm.loc(w.node),
+                       construct=model.norm(w.node).split('\n')[0])
+            rep.ob('R06f', m.key + '/analysed', True,
+                   'updates its tables with add/discard only',
+                   nontrivial=False)
+    return n
+
+
 def run(repo, rep):
     rep.rule('R06a', 'provenance: every get_functions implementation '
              'returns a set of overloads; collect_functions returns the '
@@ -584,6 +633,9 @@ def run(repo, rep):
              'order-insensitively (len/all/any/set/membership/full '
              'iteration); positional access needs a dominating '
              'len(x) == 1 test; no sorted(key=id)')
+    rep.rule('R06e', 'the all-equal idiom on the candidates\' lazy sets is '
+             'symmetric: differing sets are always ambiguous (shared with '
+             'C05)')
     rep.trusted += ['SmartType.check / is_specialization_of / map_args are '
                     'functions of their operands (C18 R18a)']
     rep.explanation = (
@@ -593,6 +645,12 @@ def run(repo, rep):
         'its loop-carried variables and exits are classified; the property '
         'holds for every overload family and enumeration order when only '
         'order-insensitive forms occur.')
+    from sa.rules import c05
+    c05.check_lazy_agreement_symmetric(repo, rep, rule='R06e')
+    rep.rule('R06f', 'registration state of a layer is updated only by '
+             'commutative operations (no last-writer-wins table keyed by '
+             'name)')
+    check_registration_commutes(repo, rep)
     ctxm = repo.module('yaql.language.contexts')
     impls = [f for q, f in ctxm.functions.items()
              if f.name == 'get_functions' and f.is_method and
